@@ -735,6 +735,11 @@ func c05Alphabet() ([]c05Shape, []c05Move) {
 		{"+3M", func(c int32) int32 { return clamp(int64(c) + 3<<20) }},
 		{"-3", func(c int32) int32 { return clamp(int64(c) - 3) }},
 		{"to5", func(c int32) int32 { return 5 }},
+		// exact boundaries of the variable-length offset delta (7 bits per byte)
+		{"+2^7", func(c int32) int32 { return clamp(int64(c) + 1<<7) }},
+		{"+2^14-1", func(c int32) int32 { return clamp(int64(c) + 1<<14 - 1) }},
+		{"+2^21", func(c int32) int32 { return clamp(int64(c) + 1<<21) }},
+		{"+2^28", func(c int32) int32 { return clamp(int64(c) + 1<<28) }},
 	}
 	return shapes, moves
 }
@@ -814,14 +819,15 @@ func TestC05Exhaustive(t *testing.T) {
 	c05TmpDir = t.TempDir()
 	f15 := KFActive("f15-difflen-merge-reorder")
 	starts := []int32{0, 16383, 40000}
-	full := c05Letters(10, 8) // 80 letters
+	full := c05Letters(10, 12) // 120 letters (the last four moves are the exact length boundaries of the offset delta)
 	total := 0
 	maxLen := 2
+	for n := 1; n <= 2; n++ {
+		total += c05Enumerate(t, full, n, starts, f15)
+	}
 	if thorough() {
 		maxLen = 3
-	}
-	for n := 1; n <= maxLen; n++ {
-		total += c05Enumerate(t, full, n, starts, f15)
+		total += c05Enumerate(t, c05Letters(10, 8), 3, starts, f15) // 80 letters
 	}
 	// one level deeper over a smaller alphabet
 	small := c05Letters(9, 3)[:] // 27 letters: all but the empty string x {same,+1,+100}
@@ -833,7 +839,7 @@ func TestC05Exhaustive(t *testing.T) {
 		}
 	}
 	total += c05Enumerate(t, small, maxLen+1, []int32{0, 16383}, f15)
-	SetExhaustive("C05", fmt.Sprintf("all sequences of length<=%d over %d letters (10 op shapes x 8 offset moves) from 3 start offsets, and length %d over %d letters", maxLen, len(full), maxLen+1, len(small)), true)
+	SetExhaustive("C05", fmt.Sprintf("all sequences of length<=2 over %d letters (10 op shapes x 12 offset moves incl. the exact 2^7/2^14/2^21/2^28 delta boundaries) from 3 start offsets, length<=%d over the 80 letters without the boundary moves, and length %d over %d letters", len(full), maxLen, maxLen+1, len(small)), true)
 	AddCounter("C05", "exhaustive_sequences", int64(total))
 	t.Logf("C05 exhaustive: %d sequences", total)
 }
@@ -847,7 +853,10 @@ func genC05Ops(t *rapid.T, maxLen int) []bop {
 	for i := 0; i < n; i++ {
 		// move
 		var nxt int64
-		switch rapid.IntRange(0, 11).Draw(t, "move") {
+		switch rapid.IntRange(0, 12).Draw(t, "move") {
+		case 12:
+			// exactly at / next to a length boundary of the variable-length delta
+			nxt = int64(cur) + int64(1)<<rapid.SampledFrom([]int{7, 14, 21, 28}).Draw(t, "boundary") + int64(rapid.IntRange(-1, 1).Draw(t, "adj"))
 		case 0:
 			nxt = int64(cur)
 		case 1, 2:
